@@ -6,30 +6,59 @@
 import Spydr.IR.Props.C10
 namespace Spydr.Names
 
-theorem names_refused_unchanged (s : N) (op : Op) (h : (step s op).2 ≠ .ok) : (step s op).1 = s := by
+theorem stepCore_refused_unchanged (s : N) (op : Op) (h : (stepCore s op).2 ≠ .ok) : (stepCore s op).1 = s := by
   cases op with
-  | create e => simp only [step] at h ⊢; split <;> simp_all
+  | create e => simp only [stepCore] at h ⊢; split <;> simp_all
   | attach p c =>
-    simp only [step] at h ⊢
+    simp only [stepCore] at h ⊢
     repeat' split
     all_goals simp_all
-  | detach p c => simp only [step] at h ⊢; split <;> simp_all
+  | detach p c => simp only [stepCore] at h ⊢; split <;> simp_all
   | setKey e k v =>
-    simp only [step] at h ⊢
+    simp only [stepCore] at h ⊢
     repeat' split
     all_goals simp_all
-  | delKey e k => simp only [step] at h ⊢; split <;> simp_all
-  | popKey e k => simp only [step] at h ⊢; split <;> simp_all
-  | delNameProp e => simp only [step] at h ⊢; split <;> simp_all
+  | delKey e k => simp only [stepCore] at h ⊢; split <;> simp_all
+  | popKey e k => simp only [stepCore] at h ⊢; split <;> simp_all
+  | delNameProp e => simp only [stepCore] at h ⊢; split <;> simp_all
   | setNs e p =>
-    simp only [step, N.setNsCore] at h ⊢
+    simp only [stepCore, N.setNsCore] at h ⊢
     repeat' split
     all_goals simp_all
   | delNs e =>
-    simp only [step] at h ⊢
+    simp only [stepCore] at h ⊢
     repeat' split
     all_goals simp_all
-  | setDefault p => simp [step] at h
+  | setDefault p => simp [stepCore] at h
+  | createIn p c n i => simp [stepCore] at h
+
+theorem tryAll_refused (s0 s : N) (ops : List Op) (h : (tryAll s0 s ops).2 ≠ .ok) : (tryAll s0 s ops).1 = s0 := by
+  induction ops generalizing s with
+  | nil => simp [tryAll] at h
+  | cons op ops ih =>
+    simp only [tryAll] at h ⊢
+    split
+    · rename_i s1 heq
+      simp only [heq] at h
+      exact ih s1 h
+    · rfl
+
+/-- a call refused by the naming rules / `.NS` rules / KeyError — including a compound constructor whose
+    add (or whose name / identifier assignment) is refused — leaves the whole naming state as it was:
+    nothing of the half-built element remains registered anywhere -/
+theorem names_refused_unchanged (s : N) (op : Op) (h : (step s op).2 ≠ .ok) : (step s op).1 = s := by
+  cases op with
+  | createIn p c n i => exact tryAll_refused s s _ h
+  | create e => exact stepCore_refused_unchanged s _ h
+  | attach p c => exact stepCore_refused_unchanged s _ h
+  | detach p c => exact stepCore_refused_unchanged s _ h
+  | setKey e k v => exact stepCore_refused_unchanged s _ h
+  | delKey e k => exact stepCore_refused_unchanged s _ h
+  | popKey e k => exact stepCore_refused_unchanged s _ h
+  | delNameProp e => exact stepCore_refused_unchanged s _ h
+  | setNs e p => exact stepCore_refused_unchanged s _ h
+  | delNs e => exact stepCore_refused_unchanged s _ h
+  | setDefault p => exact stepCore_refused_unchanged s _ h
 
 /-- hence the same answers to name lookups -/
 theorem names_refused_same_lookups (s : N) (op : Op) (h : (step s op).2 ≠ .ok) (p : El) (kd : Kind) (k : Key) (v : String) :
@@ -38,5 +67,8 @@ theorem names_refused_same_lookups (s : N) (op : Op) (h : (step s op).2 ≠ .ok)
 
 example : (step (run (N.initWith .edif) demoN).1 (.setKey d0 .ident "1bad")).2 = .value := by decide
 example : (step (run (N.initWith .edif) demoN).1 (.attach l0 d0)).2 = .value := by decide
+example : (step (run (N.initWith .edif) demoN).1 (.createIn l0 ⟨.definition, 5⟩ (some "n") (some "q"))).2 = .value := by decide
+example : (step (run (N.initWith .edif) demoN).1 (.createIn l0 ⟨.definition, 5⟩ (some "m") (some "1x"))).2 = .value := by decide
+example : (step (run (N.initWith .edif) demoN).1 (.createIn l0 ⟨.definition, 5⟩ (some "m") (some "q"))).2 = .ok := by decide
 
 end Spydr.Names
